@@ -7,7 +7,9 @@
    An individual is (key, row, len): [key] is its ==/hash class (TestCaseChromosome compares
    structurally, so a population may hold several equal chromosomes), [row] its fitness value for
    every goal (goals are positions in the row), [len] its length().  Fitness values are only ever
-   compared, so they are integers here (the harness uses an order embedding of the floats). *)
+   compared, so they are integers here (the harness uses an order embedding of the floats).
+   The chromosome attributes `rank` and `distance` are outputs of these operators only; the model
+   therefore has no such inputs (the harness presets arbitrary stale values on the real objects). *)
 From Coq Require Import List ZArith Bool.
 From Coq Require Import Uint63 PrimFloat SpecFloat FloatOps.
 Import ListNotations.
